@@ -32,6 +32,9 @@ type Bounds struct {
 	Horizon     int // scheduling steps per execution (livelock guard)
 	Deadline    time.Time
 	Workers     int
+	// MaxExecutions (0 = none) ends the exploration after that many executions, in the explorer's deterministic
+	// depth-first order; the result is then reported as not exhaustive.
+	MaxExecutions int64
 }
 
 // Stats of one exploration.
@@ -142,7 +145,7 @@ func Explore(sc Scenario, b Bounds) Stats {
 				}
 				stack = append(stack, children...)
 				atomic.AddInt64(&pending, int64(len(children))-1)
-				if len(st.Violations) >= 64 || (!b.Deadline.IsZero() && time.Now().After(b.Deadline)) {
+				if len(st.Violations) >= 64 || (!b.Deadline.IsZero() && time.Now().After(b.Deadline)) || (b.MaxExecutions > 0 && st.Executions >= b.MaxExecutions) {
 					capped.Store(true)
 				}
 				mu.Unlock()
